@@ -42,6 +42,8 @@ pub enum Class {
     HeapBlock,
     /// relaxed oracle: visible element dead / duplicated / outside the universe / prefix changed
     RelaxedInvalid,
+    /// two vectors use overlapping element storage
+    SharedStorage,
     /// the worker process died (signal / abort)
     Crash,
     Unsupported,
@@ -69,6 +71,7 @@ impl Class {
             Class::CapPost => "cap-post",
             Class::HeapBlock => "heap-block",
             Class::RelaxedInvalid => "relaxed-invalid",
+            Class::SharedStorage => "shared-storage",
             Class::Crash => "crash",
             Class::Unsupported => "unsupported",
         }
@@ -411,6 +414,18 @@ impl<'a> Ctx<'a> {
                     }
                 }
                 _ => {}
+            }
+        }
+        // separately owned storage: no two vectors share or overlap storage bytes
+        for a in 0..3 {
+            for b in (a + 1)..3 {
+                let (sa, sb) = (&self.snaps[a], &self.snaps[b]);
+                if sa.exists && sb.exists && sa.storage_addr != 0 && sb.storage_addr != 0 {
+                    let (la, lb) = (sa.cap.saturating_mul(size), sb.cap.saturating_mul(size));
+                    if la > 0 && lb > 0 && sa.storage_addr < sb.storage_addr.saturating_add(lb) && sb.storage_addr < sa.storage_addr.saturating_add(la) {
+                        return Err(self.viol(Class::SharedStorage, step, p, faulted, format!("slots {} and {} use overlapping element storage", a, b)));
+                    }
+                }
             }
         }
         if self.opts.alloc_monitor {
@@ -1010,6 +1025,11 @@ fn run_steps(cx: &mut Ctx, scn: &Scenario) -> Result<(), Violation> {
                 if n > 1 {
                     cx.rep.probes |= P_FAULT_LAST_OF_N;
                 }
+            }
+            if p.must_panic && !obs.iter().any(|e| *e == Ev::Panic) {
+                let mut v = cx.viol(Class::EvMismatch, step, Some(&p), tag, format!("observed {:?}, model expects {:?}: the operation had to be rejected by a panic", short_ev(&obs), short_ev(&p.ev)));
+                v.panic_involved = true;
+                return Err(v);
             }
             cx.check_relaxed(step, &p, tag)?;
         } else {
